@@ -81,9 +81,17 @@ def standardPrefix (uri : Str) : Option Str :=
 
 /-- `generate_prefix(uri, ns_map)`: returns the prefix and the updated map -/
 def generatePrefix (uri : Str) (m : NsMap) : Str × NsMap :=
+  -- the standard prefix if it is not in use, else the first free `ns<k>` from `k = len(ns_map)`
+  let hasKey (p : Str) : Bool := m.any (·.1 = some p)
+  let rec loop (fuel k : Nat) : Str :=
+    match fuel with
+    | 0 => 'n' :: 's' :: natStr k
+    | fuel + 1 =>
+      let p := 'n' :: 's' :: natStr k
+      if hasKey p then loop fuel (k + 1) else p
   let prefix_ := match (if uri.isEmpty then none else standardPrefix uri) with
-    | some p => p
-    | none => 'n' :: 's' :: natStr m.length
+    | some p => if hasKey p then loop (m.length + 1) m.length else p
+    | none => loop (m.length + 1) m.length
   (prefix_, m.set (some prefix_) uri)
 
 /-- `load_prefix(uri, ns_map)` -/
